@@ -2,6 +2,8 @@
     semantics over exact rationals ([None] = the function has no numeric value there: division
     by zero, unbound name, wrong arity, falling off the end / returning None, or a construct
     whose meaning is not modelled -- [EOther], [COther], [SOther], [BinOther] ...).
+    A call of something that is not a function of the module (`round(x)`, `abs(x)`: no numeric meaning
+    here) is [ECall f args] with [f] beyond the definitions.
 
     Reusable by other areas (C07, C11, C12, C08 take "per-function translation is sound" as a
     hypothesis and may import this file read-only).
@@ -19,7 +21,12 @@ Inductive expr :=
 | EBin (op : binop) (a b : expr)
 | EIfExp (c : cond) (a b : expr)
 | ECall (f : N) (args : exprs)       (* positional call of a user function *)
-| ECallKw (f : N) (args : exprs)     (* the same with keyword arguments present *)
+| ECallKw (f : N) (slots : list nat) (args : exprs)
+                                     (* a call with keyword arguments: [args] are ALL argument expressions in the
+                                        order they are WRITTEN (positional ones, then the keyword values), [slots]
+                                        gives for each of them the position of the callee parameter CPython binds it
+                                        to (a positional argument: its own index; `km=e`: the index of `km` in the
+                                        callee's signature -- resolved by the embedding, like the callee [f] itself) *)
 | EOther                             (* any other expression node (BoolOp, Lambda, known-fn call on symbols ...) *)
 with cond :=
 | CCmp (l : expr) (rest : chain)     (* ast.Compare: l op1 e1 op2 e2 ... *)
@@ -65,6 +72,28 @@ Fixpoint bind_all (xs : list name) (vs : list Q) (rho : env) : env :=
   | _, _ => rho
   end.
 
+(** CPython's binding of a keyword call: parameter k gets the value of the written argument whose slot is k.
+    Defined when the slots are a permutation of 0 .. n-1 for the n written arguments (anything else -- a
+    parameter bound twice, a gap filled by a default -- is a TypeError or outside the model: [None]). *)
+Fixpoint find_slot (k : nat) (slots : list nat) (vs : list Q) : option Q :=
+  match slots, vs with
+  | s :: slots', v :: vs' => if Nat.eqb s k then Some v else find_slot k slots' vs'
+  | _, _ => None
+  end.
+
+Fixpoint arrange_from (ks : list nat) (slots : list nat) (vs : list Q) : option (list Q) :=
+  match ks with
+  | [] => Some []
+  | k :: r =>
+      match find_slot k slots vs, arrange_from r slots vs with
+      | Some v, Some l => Some (v :: l)
+      | _, _ => None
+      end
+  end.
+
+Definition arrange (slots : list nat) (vs : list Q) : option (list Q) :=
+  if Nat.eqb (length slots) (length vs) then arrange_from (seq 0 (length vs)) slots vs else None.
+
 Section Semantics.
   Variable F : list fsem.               (* meaning of the earlier definitions *)
   Variable G : list (name * Q).         (* module float constants *)
@@ -100,7 +129,16 @@ Section Semantics.
         | Some vs => match nth_error F (N.to_nat f) with Some g => g vs | None => None end
         | None => None
         end
-    | ECallKw _ _ => None
+    | ECallKw f slots args =>
+        (* all argument expressions are evaluated left to right as written, then bound BY NAME *)
+        match evals rho args with
+        | Some vs =>
+            match arrange slots vs with
+            | Some vs' => match nth_error F (N.to_nat f) with Some g => g vs' | None => None end
+            | None => None
+            end
+        | None => None
+        end
     | EOther => None
     end
   with evalc (rho : env) (c : cond) : option bool :=
